@@ -18,6 +18,8 @@
 #            directories; every list command with names given from the source root (new file in each directory, every existing
 #            file, add twice, add.rm, rm.add, several names), run inside the source root and from outside with --sourcedir.
 #            Oracle: reference evaluation of the whole project (verif.c17place), `info`, files on disk.
+#   layer E  a target call that is not a whole statement (array element, argument of another call, dictionary value, ternary
+#            branch, parenthesised) x rm_target / add / rm / kwargs set / info.
 # Oracle (per process run): (1) touched file parses (real parser and reference parser E6); (2) the addressed call has
 # exactly the requested value (reference evaluation of the file, and the rewriter's own `info` JSON); (3) every byte
 # outside the statements the command may edit is unchanged; (4) every other argument of a re-printed statement keeps
